@@ -95,7 +95,25 @@ func checkC07(c FuzzCase, o *Obs) error {
 func fuzzFrames(c FuzzCase) (bool, error) {
 	tr := xport.NewScriptConn(nil, nil)
 	tr.NoLog = true
-	if c.ManyFrames > 0 {
+	if c.ManyFrames > 0 && c.ManyFrames%2 == 1 {
+		// odd counts: very many control frames BETWEEN messages - a run of empty
+		// pongs, then small messages each preceded by three control frames
+		masked := c.Server
+		var d []byte
+		ctl := func(i int, op byte) {
+			d = wsref.AppendFrame(d, wsref.Frame{Fin: true, Opcode: op, Masked: masked, Key: [4]byte{9, byte(i), 9, byte(i >> 8)}})
+		}
+		for i := 0; i < c.ManyFrames; i++ {
+			ctl(i, wsref.OpPong)
+		}
+		for m := 0; m < c.ManyFrames/4; m++ {
+			ctl(m, wsref.OpPong)
+			ctl(m, wsref.OpPing)
+			ctl(m, wsref.OpPong)
+			d = wsref.AppendFrame(d, wsref.Frame{Fin: true, Opcode: wsref.OpText, Masked: masked, Key: [4]byte{1, 2, byte(m), 4}, Payload: []byte("m")})
+		}
+		c.Data = d
+	} else if c.ManyFrames > 0 {
 		masked := c.Server
 		d := wsref.AppendFrame(nil, wsref.Frame{Opcode: wsref.OpText, Masked: masked, Key: [4]byte{1, 2, 3, 4}, Payload: []byte("x")})
 		for i := 0; i < c.ManyFrames; i++ {
@@ -444,6 +462,9 @@ var proxyRefusalSeen int
 
 var replyTemplates = []string{
 	okHandshake,
+	"HTTP/1.1 403 Forbidden\r\nContent-Length: 268435456\r\n\r\ndenied",
+	"HTTP/1.1 403 Forbidden\r\nContent-Length: 9223372036854775807\r\n\r\ndenied",
+	"HTTP/1.1 500 Oops\r\nContent-Length: 4294967296\r\nContent-Type: text/plain\r\n\r\n",
 	"HTTP/1.1 101 Switching Protocols\r\nUpgrade: websocket\r\nConnection: Upgrade\r\nSec-WebSocket-Accept: $ACCEPT\r\nSec-WebSocket-Extensions: permessage-deflate; server_no_context_takeover; client_no_context_takeover; server_max_window_bits=16\r\n\r\n",
 	"HTTP/1.1 101 Switching Protocols\r\nUpgrade: websocket\r\nConnection: Upgrade\r\nSec-WebSocket-Accept: $ACCEPT\r\nSec-WebSocket-Extensions: permessage-deflate; server_no_context_takeover; client_no_context_takeover; client_max_window_bits=0; server_max_window_bits=\"7\"\r\n\r\n",
 	"HTTP/1.1 101 Switching Protocols\r\nUpgrade: websocket\r\nConnection: Upgrade\r\nSec-WebSocket-Accept: $ACCEPT\r\nSec-WebSocket-Extensions: permessage-deflate; server_no_context_takeover; client_no_context_takeover; server_max_window_bits=-1; client_max_window_bits=99999999999999999999\r\n\r\n",
@@ -526,7 +547,7 @@ func genFuzzCase(t *rapid.T) FuzzCase {
 		case 98:
 			// one message of very many empty fragments (optionally with empty pongs
 			// in between): a few bytes per frame, no payload at all
-			c.ManyFrames = rapid.SampledFrom([]int{3000, 20000}).Draw(t, "nframes")
+			c.ManyFrames = rapid.SampledFrom([]int{3000, 20000, 1501, 2401}).Draw(t, "nframes")
 			c.ReadJSON, c.Limit, c.PreBuf = false, 0, 0
 		case 99:
 			// text messages holding JSON documents, well-formed or not
